@@ -240,14 +240,14 @@ func vfRegisterKinds() {
 // ctx.GetInputRequest() tells which namespace was active when it ran.
 type vfReq struct{ ns string }
 
-func (r *vfReq) Header() protocols.Header                { return nil }
-func (r *vfReq) IsStream() bool                          { return false }
-func (r *vfReq) SetPayload(payload interface{})          {}
-func (r *vfReq) GetPayload() io.Reader                   { return strings.NewReader("") }
-func (r *vfReq) RawPayload() []byte                      { return nil }
-func (r *vfReq) PayloadSize() int64                      { return 0 }
+func (r *vfReq) Header() protocols.Header                 { return nil }
+func (r *vfReq) IsStream() bool                           { return false }
+func (r *vfReq) SetPayload(payload interface{})           {}
+func (r *vfReq) GetPayload() io.Reader                    { return strings.NewReader("") }
+func (r *vfReq) RawPayload() []byte                       { return nil }
+func (r *vfReq) PayloadSize() int64                       { return 0 }
 func (r *vfReq) ToBuilderRequest(name string) interface{} { return nil }
-func (r *vfReq) Close()                                  {}
+func (r *vfReq) Close()                                   {}
 
 var vfNamespaces = []string{context.DefaultNamespace, "n1", "n2"}
 
@@ -343,16 +343,17 @@ type vfRefOut struct {
 	Visits []vfRefVisit
 	Result string
 	// facts for the non-triviality rule and the class histogram
-	JumpSkip     int  // taken jumps that skipped >= 1 node
-	JumpSkipEnd  int  // ... of which skipped an END node
-	JumpAdjacent int  // taken jumps to the very next node
-	Reused       bool // one filter instance ran more than once
-	Suppressed   bool // an END inside before/main kept a later, non-empty flow from running
-	EndNode      bool // stopped at an END node reached sequentially
-	EndMapped    bool // stopped by result -> END
-	EndUnmapped  bool // stopped by an unmapped result
-	NonDefaultNS bool
-	Consumed     int
+	JumpSkip      int  // taken jumps that skipped >= 1 node
+	JumpSkipEnd   int  // ... of which skipped an END node
+	JumpAdjacent  int  // taken jumps to the very next node
+	JumpToEndNode int  // taken jumps that land on an aliased END node
+	Reused        bool // one filter instance ran more than once
+	Suppressed    bool // an END inside before/main kept a later, non-empty flow from running
+	EndNode       bool // stopped at an END node reached sequentially
+	EndMapped     bool // stopped by result -> END
+	EndUnmapped   bool // stopped by an unmapped result
+	NonDefaultNS  bool
+	Consumed      int
 }
 
 func vfNormNS(ns string) string {
@@ -404,6 +405,9 @@ func vfRefFlow(p *vfPipe, script []int, out *vfRefOut) (sawEnd bool) {
 		}
 		if j < 0 {
 			panic("vf: reference interpreter run on an invalid flow (target " + t + ")")
+		}
+		if flow[j].isEnd() {
+			out.JumpToEndNode++
 		}
 		if j == i+1 {
 			out.JumpAdjacent++
@@ -641,6 +645,11 @@ var (
 type vfGenCfg struct {
 	maxNodes    int
 	allowNoFlow bool
+	// endAliasJumps: jumpIf targets may also be the alias of exactly one later END node. Whether
+	// validation accepts such a target is a reading the statement leaves open; once accepted, the
+	// flow rules apply: the jump lands on that END node (skipping what is in between), the pipeline
+	// ends there and its result is the result of the last filter run.
+	endAliasJumps bool
 }
 
 // vfGenValidPipe builds a pipeline that is valid by construction (V holds).
@@ -680,7 +689,11 @@ func vfGenValidPipe(rt *rapid.T, name string, cfg vfGenCfg, label string) *vfPip
 		} else {
 			n.Filter = vfFilterNames[vfRange(rt, 0, nf-1, label+"filter")]
 		}
-		switch vfRange(rt, 0, 3, label+"aliasMode") {
+		aliasMode := vfRange(rt, 0, 3, label+"aliasMode")
+		if cfg.endAliasJumps && n.isEnd() && aliasMode <= 1 && rapid.Bool().Draw(rt, label+"endAliased") {
+			aliasMode = 2
+		}
+		switch aliasMode {
 		case 0, 1: // none
 		case 2: // unique alias
 			n.Alias = fmt.Sprintf("u%d", i)
@@ -701,15 +714,25 @@ func vfGenValidPipe(rt *rapid.T, name string, cfg vfGenCfg, label string) *vfPip
 		for k := i + 1; k < len(p.Flow); k++ {
 			count[p.Flow[k].effAlias()]++
 		}
-		var eligible []string
+		var eligible, endAliases []string
 		for k := i + 1; k < len(p.Flow); k++ {
 			a := p.Flow[k].effAlias()
 			if !p.Flow[k].isEnd() && count[a] == 1 && a != vfEND {
 				eligible = append(eligible, a)
 			}
+			if cfg.endAliasJumps && p.Flow[k].isEnd() && p.Flow[k].Alias != "" && count[a] == 1 && a != vfEND {
+				endAliases = append(endAliases, a)
+			}
 		}
 		kind, _ := p.kindOf(n.Filter)
 		for _, r := range vfKindResults[kind] {
+			if len(endAliases) > 0 && vfRange(rt, 0, 9, label+"jumpEndAlias") < 4 {
+				if n.JumpIf == nil {
+					n.JumpIf = map[string]string{}
+				}
+				n.JumpIf[r] = vfPick(rt, endAliases, label+"endAlias")
+				continue
+			}
 			c := vfRange(rt, 0, 9, label+"jump")
 			switch {
 			case c <= 1: // unmapped
